@@ -45,73 +45,93 @@ def _is_empty_block(node):
 
 
 def _retry_loop(ctx, fn, op, zero_is, eof_kind):
-    """read_exact / write_all: the shared loop shape"""
+    """read_exact / write_all as decision tables over the atomic tests on the call's result R (any spelling of the
+    match: literal arm Ok(0), `let n = match ..; if n == 0`, `continue` or an empty arm for the retry):
+        advance  (rest = rest[n..])   iff  ok(R) and n != 0
+        give up  (read_exact: leave the loop; write_all: Err(WriteAllEof))   iff  ok(R) and n == 0
+        return Err(e) unchanged       iff  err(R) and not interrupted(e)
+        otherwise (interrupted) the loop continues with nothing consumed"""
+    from .. import booleval
     b = ctx.hir(IO + fn)
-    c = hq.Canon(b)
+    ix = hq.Index(b)
+    c = ix.canon
     pv = hq.Canon(b, force=True)
     short = fn.split("::")[-1]
     loops = [x for x, _ in H.walk(b["body"]) if x.get("k") in ("While", "Loop", "For")]
     ok = len(loops) == 1 and loops[0]["k"] == "While" and c(loops[0]["cond"]) == "(0 != core::slice::len($0))"
     ctx.check(ok, R, short + "::loops-while-buffer-non-empty", b["file"], "the loop runs exactly while the remaining buffer is non-empty",
               observed=[c(x["cond"]) if x.get("cond") else x["k"] for x in loops])
-    m, arms = _arms(b, c)
-    call = IO + op + "(self, $0)"
-    ctx.check(m is not None and c(m["scrut"]) == call, R, short + "::calls-once-per-iteration-on-rest", b["file"],
-              "each iteration passes the *remaining* buffer to %s" % op.split("::")[-1], observed=c(m["scrut"]) if m else None, expected=call)
-    if not arms:
+    if not ok:
         return
-    by = {}
-    for a in arms:
-        by.setdefault(a["pat"], []).append(a)
-    # Ok(0)
-    z = by.get("Result::Ok(0)") or []
-    if zero_is == "break":
-        ok = len(z) == 1 and z[0]["guard"] is None and _only_stmt(z[0]["body"]).get("k") == "Break"
-    else:
-        r = _only_stmt(z[0]["body"]) if len(z) == 1 else {}
-        ok = len(z) == 1 and z[0]["guard"] is None and r.get("k") == "Ret" and \
-            c(r["e"]) == "%s(%sError::from(%sErrorKind::%s))" % (ERR, IO, IO, eof_kind)
-    ctx.check(ok, R, short + "::zero-progress", b["file"],
-              "Ok(0) ends the loop (read_exact: then UnexpectedEof unless complete; write_all: WriteAllEof error)",
-              observed=[(a["pat"], a["guard"], c(a["body"])[:80]) for a in z])
-    # Ok(n): advance by exactly n
-    adv = [a for p, l in by.items() for a in l if re.fullmatch(r"Result::Ok\(\w+\)", p) and p != "Result::Ok(0)"]
-    ok = len(adv) == 1 and adv[0]["guard"] is None
-    got = None
-    if ok:
-        asg = [x for x, _ in H.walk(adv[0]["body"]) if x.get("k") in ("Assign", "AssignOp")]
-        ok = len(asg) == 1 and asg[0]["k"] == "Assign" and c(asg[0]["l"]) == "$0"
-        got = pv(asg[0]["r"]) if asg else None
-        ok = ok and got == "$0[%s@Result::Ok.0..]" % call
-    ctx.check(ok, R, short + "::advances-by-reported-count", b["file"],
-              "Ok(n): the remaining buffer becomes rest[n..] with n the count this call reported", observed=got)
-    # Err arms: interrupted -> retry, other -> return the same error
-    errs = [a for p, l in by.items() for a in l if re.fullmatch(r"Result::Err\(\w+\)", p)]
-    retry = [a for a in errs if a["guard"] is not None]
-    final = [a for a in errs if a["guard"] is None]
-    ev = "@%s@Result::Err.0" % "::".join(op.split("::")[-2:])
-    okr = len(retry) == 1 and retry[0]["guard"] in ("(%sError::kind(%s) == %sErrorKind::Interrupted)" % (IO, ev, IO),
-                                                     "(%sErrorKind::Interrupted == %sError::kind(%s))" % (IO, IO, ev),
-                                                     "%sError::is_interrupted(%s)" % (IO, ev)) and _is_empty_block(retry[0]["body"])
-    ctx.check(okr, R, short + "::interrupted-retries", b["file"], "only ErrorKind::Interrupted is retried, with nothing consumed",
-              observed=[(a["guard"], c(a["body"])[:60]) for a in retry])
-    r = _only_stmt(final[0]["body"]) if len(final) == 1 else {}
-    okf = len(final) == 1 and r.get("k") == "Ret" and re.fullmatch(re.escape(ERR) + r"\(" + re.escape(ev) + r"(#\d+)?\)", c(r["e"]) or "") is not None
-    # the catch-all must come after the guarded arm
-    okf = okf and retry and arms.index(retry[0]) < arms.index(final[0])
-    ctx.check(okf, R, short + "::other-errors-returned", b["file"], "every other error is returned unchanged", observed=c(r["e"]) if r.get("e") else None)
-    ctx.check(len(arms) == 4, R, short + "::four-arms", b["file"], "the result match has exactly the four cases", observed=[a["pat"] for a in arms])
+    lp = loops[0]
+    call = IO + op + "(self, $0)"
+    calls = [x for x, _ in H.walk(lp["body"]) if x.get("k") in ("MethodCall", "Call") and c(x) == call]
+    ctx.check(len(calls) == 1, R, short + "::calls-once-per-iteration-on-rest", b["file"],
+              "each iteration passes the *remaining* buffer to %s, once" % op.split("::")[-1], observed=len(calls), expected=call)
+    if len(calls) != 1:
+        return
+    opn = "::".join(op.split("::")[-2:])
+    N = "%s@Result::Ok.0" % call
+    adv = [x for x, _ in H.walk(lp["body"]) if x.get("k") in ("Assign", "AssignOp") and c(x["l"]) == "$0"]
+    rets = [x for x, _ in H.walk(lp["body"]) if x.get("k") == "Ret"]
+    brks = [x for x, _ in H.walk(lp["body"]) if x.get("k") == "Break" and x.get("target") == lp.get("id")]
+    ret_eof = [x for x in rets if c(x.get("e")) == "%s(%sError::from(%sErrorKind::%s))" % (ERR, IO, IO, eof_kind)]
+    ret_err = [x for x in rets if x not in ret_eof and re.fullmatch(re.escape(ERR) + r"\(" + re.escape(call) + r"@Result::Err\.0\)", pv(x.get("e")) or "")]
+    other = [x for x in rets if x not in ret_eof and x not in ret_err]
+    giveup = brks if zero_is == "break" else ret_eof
+    shape = len(adv) == 1 and adv[0]["k"] == "Assign" and pv(adv[0]["r"]) == "$0[%s..]" % N and len(ret_err) >= 1 and len(giveup) >= 1 and not other and \
+        (zero_is != "break" or not ret_eof) and (zero_is == "break" or not brks)
+    ctx.check(shape, R, short + "::advances-by-reported-count", b["file"],
+              "the only update of the remaining buffer is rest[n..] with n the count this call reported; the only exits are "
+              "the error return and the zero-progress exit",
+              observed={"advance": [pv(x["r"]) for x in adv], "returns": [pv(x.get("e")) for x in rets], "breaks": len(brks)})
+    if not shape:
+        return
+    be = booleval.BoolEval(ix)
+    kinds = hq.Index.CASE_KINDS
+    roles = {}
+
+    def classify(atoms):
+        for a in atoms:
+            sp = booleval._split_top(a)
+            if a == "ok(%s)" % call:
+                roles["ok"] = a
+            elif sp and sp[1] == "==" and ({sp[0], sp[2]} == {"0", N} or {sp[0], sp[2]} == {"0", "@%s@Result::Ok.0" % opn}):
+                roles["zero"] = a
+            elif ("ErrorKind::Interrupted" in a and "Error::kind(" in a) or a.startswith(IO + "Error::is_interrupted("):
+                roles["intr"] = a
+            else:
+                roles.setdefault("?", set()).add(a)
+    tables = {}
+    for name, sites in (("advance", adv), ("giveup", giveup), ("ret_err", ret_err)):
+        atoms, table = be.reach_table(sites, kinds, below=lp)
+        classify(atoms)
+        tables[name] = (atoms, table)
+    okr = {"ok", "zero", "intr"} <= set(roles) and "?" not in roles
+    want = {"advance": lambda s_: s_.get(roles["ok"], False) and not s_.get(roles["zero"], False),
+            "giveup": lambda s_: s_.get(roles["ok"], False) and s_.get(roles["zero"], False),
+            "ret_err": lambda s_: (not s_.get(roles["ok"], True)) and not s_.get(roles["intr"], False)} if okr else {}
+    for name, key, msg in (("advance", "::advance-iff-progress", "the buffer advances exactly when the call reported n > 0 bytes"),
+                           ("giveup", "::zero-progress", "Ok(0) ends the attempt (read_exact: leaves the loop, then UnexpectedEof unless complete; write_all: WriteAllEof)"),
+                           ("ret_err", "::other-errors-returned", "every error other than Interrupted is returned unchanged; Interrupted is retried")):
+        bad = []
+        if okr:
+            atoms, table = tables[name]
+            for key_, got in table.items():
+                s_ = dict(key_)
+                # rows where ok is false make `zero` meaningless and vice versa for intr: compare on the relevant atoms only
+                if got != want[name](s_):
+                    bad.append((sorted(k_[-30:] for k_, v_ in s_.items() if v_), got))
+        ctx.check(okr and not bad, R, short + key, b["file"], msg, observed={"roles": {k_: (sorted(v_) if isinstance(v_, set) else v_[-50:]) for k_, v_ in roles.items()}, "mismatches": bad[:3]})
     # after the loop
-    t = hq.peel(hq.tail_expr(b["body"]) or {})
+    cases = sorted((cs, v) for cs, v, leaf in ix.result_cases() if not ix.contains(lp, leaf))
     if zero_is == "break":
-        ok = t.get("k") == "If" and c(t["cond"]) == "(0 != core::slice::len($0))" and \
-            c(_only_stmt(t["then"])) == "%s(%sError::from(%sErrorKind::%s))" % (ERR, IO, IO, eof_kind) and c(_only_stmt(t["else"])) == OK + "(())"
-        ctx.check(ok, R, short + "::incomplete-is-eof-error", b["file"], "leaving the loop with bytes missing is UnexpectedEof, otherwise Ok(())",
-                  observed=c(t)[:160] if t else None)
+        want_c = sorted([(["(0 != core::slice::len($0))"], "%s(%sError::from(%sErrorKind::%s))" % (ERR, IO, IO, eof_kind)),
+                         (["(0 == core::slice::len($0))"], OK + "(())")])
+        ctx.check(cases == want_c, R, short + "::incomplete-is-eof-error", b["file"],
+                  "leaving the loop with bytes missing is UnexpectedEof, otherwise Ok(())", observed=cases)
     else:
-        ctx.check(c(t) == OK + "(())", R, short + "::complete-is-ok", b["file"], "Ok(()) once everything was written", observed=c(t) if t else None)
-    rets = [x for x, _ in H.walk(b["body"]) if x.get("k") == "Ret"]
-    ctx.check(len(rets) == (1 if zero_is == "break" else 2), R, short + "::no-other-exit", b["file"], "no other early exit", observed=len(rets))
+        ctx.check(cases == [([], OK + "(())")], R, short + "::complete-is-ok", b["file"], "Ok(()) once everything was written", observed=cases)
 
 
 def _min_args(s):
@@ -251,22 +271,45 @@ def _slices(ctx):
 
 
 def _read_to_end(ctx):
+    """loop: n = read(&mut buf)?; n == 0 ends with Ok(()), otherwise exactly buf[..n] is appended (any spelling)"""
+    from .. import booleval
     b = ctx.hir(IO + "Read::read_to_end")
     ix = hq.Index(b)
     c = ix.canon
     pv = hq.Canon(b, force=True)
     loops = [x for x, _ in H.walk(b["body"]) if x.get("k") in ("While", "Loop", "For")]
-    brk = [x for x, _ in H.walk(b["body"]) if x.get("k") == "Break"]
-    rd = IO + "Read::read(self, @mut:Repeat)"
-    conds = [(p["kind"], p["cond"]) for p in ix.path_conditions(brk[0])] if len(brk) == 1 else []
-    ok = len(loops) == 1 and loops[0]["k"] == "Loop" and conds == [("if", "(0 == @Read::read)"), ("try", "ok " + rd)]
-    ctx.check(ok, R, "read_to_end::stops-at-zero", b["file"], "the loop ends exactly when a read returns 0; read errors propagate", observed=conds)
-    ext = [x for x, _ in H.walk(b["body"]) if x.get("k") == "MethodCall" and x["name"] == "extend_from_slice"]
+    if len(loops) != 1 or loops[0]["k"] != "Loop":
+        ctx.fail(R, "read_to_end::stops-at-zero", b["file"], "one unconditional loop expected", observed=[x["k"] for x in loops])
+        return
+    lp = loops[0]
+    RD = re.compile(re.escape(IO + "Read::read(self, ") + r"(?:\[0; \[u8; \d+\]\]|@mut:Repeat)\)\?")
+    ext = [x for x, _ in H.walk(lp["body"]) if x.get("k") == "MethodCall" and x["name"] == "extend_from_slice"]
     got = (c(ext[0]["recv"]), pv(ext[0]["args"][0])) if len(ext) == 1 else None
-    ok = got is not None and got[0] == "$0" and re.fullmatch(r"\[0; \[u8; \d+\]\]\[\.\." + re.escape(IO + "Read::read(self, [0; [u8; ") + r"\d+\]\]\)\?\]", got[1]) is not None
-    ctx.check(ok, R, "read_to_end::appends-bytes-read", b["file"], "each iteration appends exactly the bytes that read returned", observed=got)
-    t = c(hq.tail_expr(b["body"]))
-    ctx.check(t == OK + "(())", R, "read_to_end::ok", b["file"], "Ok(()) at end of input", observed=t)
+    m = re.fullmatch(r"\[0; \[u8; \d+\]\]\[\.\.(.*)\]", got[1]) if got else None
+    okx = got is not None and got[0] == "$0" and m is not None and RD.fullmatch(m.group(1)) is not None
+    ctx.check(okx, R, "read_to_end::appends-bytes-read", b["file"], "each iteration appends exactly the bytes that read returned", observed=got)
+    exits = [x for x, _ in H.walk(lp["body"]) if (x.get("k") == "Break" and x.get("target") == lp.get("id")) or x.get("k") == "Ret"]
+    be = booleval.BoolEval(ix, canon=pv)
+    ok = bool(exits) and len(ext) == 1
+    obs = {}
+    if ok:
+        for name, sites, want in (("exit", exits, True), ("append", ext, False)):
+            atoms, table = be.reach_table(sites, hq.Index.CASE_KINDS, below=lp)
+            zero = [a for a in atoms if booleval._split_top(a) and booleval._split_top(a)[1] == "==" and "0" in (booleval._split_top(a)[0], booleval._split_top(a)[2])
+                    and any(RD.fullmatch(t) for t in (booleval._split_top(a)[0], booleval._split_top(a)[2]))]
+            obs[name] = atoms
+            if len(atoms) != 1 or len(zero) != 1:
+                ok = False
+                continue
+            ok = ok and all(got_ == (dict(k_)[zero[0]] == want) for k_, got_ in table.items())
+        # what an exit yields: Ok(()) — directly (return) or after the loop (break)
+        vals = [c(x.get("e")) for x in exits if x.get("k") == "Ret"]
+        after = [v for cs, v, leaf in ix.result_cases() if not ix.contains(lp, leaf)]
+        ok = ok and all(v == OK + "(())" for v in vals) and all(v == OK + "(())" for v in after) and \
+            (all(x.get("k") == "Ret" for x in exits) or after == [OK + "(())"])
+        obs["values"] = vals + after
+    ctx.check(ok, R, "read_to_end::stops-at-zero", b["file"],
+              "the loop ends exactly when a read returns 0 (read errors propagate through `?`), and the result is then Ok(())", observed=obs)
 
 
 def _errors(ctx):
@@ -291,4 +334,4 @@ def run(ctx):
     ctx.guard(R, "slices", lambda: _slices(ctx))
     ctx.guard(R, "read_to_end", lambda: _read_to_end(ctx))
     ctx.guard(R, "errors", lambda: _errors(ctx))
-    ctx.floor(R, len([o for o in ctx.obs[before:] if o.cfg == ctx.cfg]), 40, "no_std I/O contract clauses")
+    ctx.floor(R, len([o for o in ctx.obs[before:] if o.cfg == ctx.cfg]), 36, "no_std I/O contract clauses")
